@@ -310,7 +310,8 @@ impl<'a> Runner<'a> {
 }
 
 fn rand_new(rng: &mut Rng) -> NewSpec {
-    let nq = rng.range(1, 3) as usize;
+    // mostly 1-3 queues, sometimes 4-5 (priorities with gaps: 0, 1, 2, 5, 9)
+    let nq = if rng.chance(1, 6) { rng.range(4, 5) as usize } else { rng.range(1, 3) as usize };
     let mut prios: Vec<u32> = vec![0, 1, 2, 5, 9];
     let mut queues = Vec::new();
     for _ in 0..nq {
@@ -900,6 +901,26 @@ fn huge_cases(r: &mut Runner) {
     }
 }
 
+/// stream sources whose seek / read fails after the object was added (engine-only oracle, see probe.rs):
+/// seek failure at the k-th transfer start, transient and permanent, read failure inside a transfer
+fn stream_fault_cases(r: &mut Runner) {
+    let mut i = 0;
+    for full in ["f", "b"] {
+        for car in ["n", "d"] {
+            for maxc in [1u32, 2, 3] {
+                for (from, count, read_at) in [(0u64, 0u64, 0u64), (1, 1, 0), (2, 1, 0), (1, 2, 0), (1, 1_000_000, 0), (3, 1_000_000, 0), (0, 0, 1), (0, 0, 2), (0, 0, 3), (2, 1, 3)] {
+                    for n_sym in [1u64, 5, 9] {
+                        i += 1;
+                        r.begin(&format!("streamfault-{}", i));
+                        r.op(format!("sched probe {} {} {} {} {} {} {}", full, n_sym, maxc, car, from, count, read_at));
+                        r.finish();
+                    }
+                }
+            }
+        }
+    }
+}
+
 pub fn run(ctx: &mut Ctx, _eng: &mut dyn Engine) {
     let thorough = ctx.tier_thorough;
     let seed = ctx.seed;
@@ -918,6 +939,7 @@ pub fn run(ctx: &mut Ctx, _eng: &mut dyn Engine) {
     removal2_cases(&mut r);
     clock_back_cases(&mut r);
     huge_cases(&mut r);
+    stream_fault_cases(&mut r);
     removal_cases(&mut r, thorough);
     grid_cases(&mut r, &mut rng, thorough);
     timing_cases(&mut r, &mut rng, if thorough { 3000 } else { 300 });
